@@ -555,6 +555,7 @@ def push_cases(rng, n):
 
 # ------------------------------------------------------------------ struct roles (C09 C01 C05 C06 C07)
 VERTEXABLE = [{"k": "scalar", "s": sc} for sc in SCALARS] + [{"k": "vec", "n": n, "s": sc} for n in (2, 3, 4) for sc in SCALARS]
+VERTEX_F64 = [{"k": "scalar", "s": "f64"}] + [{"k": "vec", "n": n, "s": "f64"} for n in (2, 3, 4)]
 FLOATVECS = [{"k": "scalar", "s": "f32"}] + [{"k": "vec", "n": n, "s": "f32"} for n in (2, 3, 4)]
 
 
@@ -688,6 +689,8 @@ def role_shader(rng, big_arrays=True, entry_names=False, rename=None, multi=None
         restyle_globals(S, rng, 0.6)
     if rng.random() < 0.25:
         add_aliases(S, rng)
+    if rng.random() < 0.2:
+        rng.shuffle(S["structs"])     # WGSL allows use before declaration
     return S, has_rt
 
 
@@ -702,7 +705,8 @@ def role_shader0(rng, big_arrays=True, entry_names=False):
     vparams = []
     if rng.random() < 0.9:
         bi = [b for b in ("vertex_index", "instance_index") if rng.random() < 0.25]
-        S["structs"].append(io_struct(rng, "VertexInput", VERTEXABLE, rng.randint(1, 4), bi, prefix="v"))
+        # now and then with 64-bit float attributes (Float64 formats; judged on the recording device only)
+        S["structs"].append(io_struct(rng, "VertexInput", VERTEXABLE + (VERTEX_F64 * 3 if rng.random() < 0.12 else []), rng.randint(1, 4), bi, prefix="v"))
         vparams.append({"k": "struct", "name": "vertex_in", "ty": "VertexInput"})
         if rng.random() < 0.4:
             st = io_struct(rng, "InstanceInput", VERTEXABLE, rng.randint(1, 3), prefix="i")
@@ -749,7 +753,7 @@ def role_shader0(rng, big_arrays=True, entry_names=False):
         S["structs"].append({"name": "PushData", "members": host_members(rng, "storage_r")[:3]})
         S["globals"].append({"name": "pc", "space": "push", "ty": {"k": "struct", "name": "PushData"}})
     if rng.random() < 0.2:
-        S["structs"].append({"name": "Scratch", "members": [{"name": "s%d" % j, "ty": ({"k": "scalar", "s": "bool"} if rng.random() < 0.25 else rand_leaf(rng))} for j in range(rng.randint(1, 3))]})
+        S["structs"].append({"name": "Scratch", "members": [{"name": "s%d" % j, "ty": ({"k": "scalar", "s": "bool"} if rng.random() < 0.2 else {"k": "vec", "n": rng.choice([2, 3, 4]), "s": "bool"} if rng.random() < 0.1 else rand_leaf(rng))} for j in range(rng.randint(1, 3))]})
         S["globals"].append({"name": "scratch", "space": rng.choice(["workgroup", "private"]), "ty": {"k": "struct", "name": "Scratch"}})
     if rng.random() < 0.15:
         # a struct reachable only through a workgroup array whose length is an override
